@@ -463,3 +463,10 @@ pub fn finish_leave(name: &str) {
         pop_actor();
     }
 }
+
+/// items of the crate that are private in a normal build, exported so that the harness can run the
+/// REAL functions (differential test of the duration arithmetic, direct drive of the timer list)
+pub mod export {
+    pub use crate::sync::atomic_dur::AtomicDuration;
+    pub use crate::timeout_list::{now, TimeOutList, TimeoutHandle, TimerThread};
+}
